@@ -252,6 +252,24 @@ def run(ck, P):
         ck.ob("C05.5-GROW-PROBE", f.site("probe bound"), okp and bool(loops), "probe_len = %s bounds the loop: %s"
               % ([S(d.rhs) for d in pl], bool(loops)))
 
+    # back-shift deletion: the decision to move an entry into the vacated slot compares slot positions on a *circular* table; whatever
+    # the formula, it cannot be right for clusters that wrap past the last slot unless it involves the table size (mask)
+    shifts = [e for e in ce.calls("memcpy") if e.block.id in ce.in_loop_blocks()]
+    ck.need(shifts, "clear_elem lost its back-shift move")
+    cdm = ce.control_deps()
+    okc = True
+    detc = []
+    for e in shifts:
+        conds = [S(ce.blocks[b].term["cond"]) for b in cdm.get(e.block.id, set()) if ce.blocks[b].term and ce.blocks[b].term.get("cond") is not None]
+        deciding = [c for c in conds if "removed_index" in c or "entry_index" in c]
+        detc += deciding
+        if not deciding or not any("table_size" in c for c in deciding):
+            okc = False
+    ck.ob("C05.5-GROW-PROBE", ce.site("circular index comparison"), okc,
+          "the shift decision compares slot indices modulo the table size: %s" % detc if okc else
+          "the back-shift decision %s compares slot indices without the table size: for a probe cluster that wraps past the last slot the order is wrong — "
+          "entries become unreachable after a removal" % (detc or "(not found)"))
+
     # ------------------------------------------------------------------ 6. no-update maps refuse
     ck.rule("C05.6-NO-UPDATE", "R-GUARD: with M_MAP_VAL_ALLOW_UPDATE clear, putting an existing key returns -EPERM and neither stores a "
             "value nor calls the destructor", floor=1)
